@@ -559,4 +559,18 @@ def debugInfo (p : Prog) : List (String × Option Nat × Nat) :=
   let c := compProg p
   (List.range p.length).zip p |>.map (fun (i, d) => (d.name, labelOffset c i, d.params.length))
 
+/-- the compiler's own size rejections, function by function (same traversal as `compFuncs`): more than 255
+    arguments (convertFuncDecl, codegen.go:595 "maximum of 255 local variables is allowed"), more than 255 local slots
+    (writeJumps, codegen.go:2926 "func … has %d local variables (maximum is 255)"). -/
+def acceptedFuncs (tbl : List (String × Nat × Nat)) : List FuncDecl → Nat → Nat → Bool
+  | [], _, _ => true
+  | d :: r, i, nl =>
+    decide (d.params.length ≤ 255) &&
+    decide ((compS { funcs := tbl, args := d.params } [] (.block d.body) { nl := nl, cnt := 0, scopes := [[]] }).2.cnt ≤ 255) &&
+    acceptedFuncs tbl r (i + 1) (compFunc tbl d i nl).2
+
+/-- `Compile` does not return an error: the per-function limits, and every jump offset fits int32
+    (replaceLabelWithOffset, codegen.go:2979) — guaranteed when the long layout is shorter than 2^31 bytes. -/
+def accepted (p : Prog) : Bool :=
+  acceptedFuncs (funcTable p) p 0 p.length && decide (((compProg p).map longSize).sum < 2 ^ 31)
 end NeoModel.Compile
